@@ -175,7 +175,7 @@ def writer_tables(prog):
                 if v is None:
                     raise Broken("non-constant case label in %s" % sref["q"])
                 table[v] = (name, plen - 1 if name else None)
-        out[f["q"]] = {"prefix": prefix, "table": table, "stringer": sref["q"], "where": f["l"]}
+        out[f["q"]] = {"prefix": prefix, "table": table, "stringer": sref["q"], "where": f["l"], "init": i}
     return out
 
 
@@ -243,21 +243,51 @@ def z1(prog):
             if len(regs) > 1 and len({(r[0], r[1]) for r in regs}) > 1:
                 findings.append({"key": key, "where": loc, "msg": "word `%s` is registered with different meanings: %s" % (name, regs[:3]), "detail": None})
     inst.append(("Z1:R:registrations", {"named_constant_registrations": nreg, "with_writer_table": nread}))
-    # (3) dw_simple_dom::show hands the table entry to string_or_unknown, which returns it unchanged when non-null
-    sh = [f for f in prog.funcs.values() if f["q"].endswith("dw_simple_dom::show")]
-    su = prog.func_opt("string_or_unknown")
-    if len(sh) != 1 or su is None:
-        raise Broken("anchors dw_simple_dom::show / string_or_unknown vanished")
-    ok1 = any(c.get("fn") == "string_or_unknown" for c in calls(sh[0]["body"]))
-    first_if = [x for x in su["body"]["s"] if x.get("k") == "if"]
-    ok2 = False
-    if first_if:
-        c = unwrap(first_if[0]["c"])
-        r = [x for x in walk(first_if[0]["then"]) if x.get("k") == "return"]
-        ok2 = bool(r) and isinstance(unwrap(r[0]["e"]), dict) and unwrap(r[0]["e"]).get("n") == "known"
-    inst.append(("Z1:show", {"uses_string_or_unknown": ok1, "known_returned_unchanged": ok2}))
-    if not (ok1 and ok2):
-        findings.append({"key": "Z1:show", "where": sh[0]["l"], "msg": "dw_simple_dom::show no longer prints the table entry unchanged", "detail": None})
+    # (3) dw_simple_dom::show, interpreted from source on the domain objects the repository constructs (own constructor, own stringer,
+    # positive_int_from_mpz, string_or_unknown), prints for every value of every table exactly the table's name: full form = the name,
+    # brief form = the name without the family prefix; both integer representations of the value.
+    from cxxobj import CxxEvaluator, Obj, OStream, OutOfBounds
+    from absint import Thrown
+    sh = [f for f in prog.funcs.values() if f["q"].endswith("dw_simple_dom::show") and f.get("body") is not None]
+    ctor = [f for f in prog.funcs.values() if f["q"].endswith("dw_simple_dom::dw_simple_dom") and len(f["params"]) == 5]
+    if len(sh) != 1 or len(ctor) != 1:
+        raise Broken("anchors dw_simple_dom::show / its constructor vanished")
+    ev = CxxEvaluator({}, {}, prog=prog)
+    brev = {c["n"]: ("enum", c["n"], c["v"]) for e in prog.enums.values() if e["q"] == "brevity" for c in e["consts"]}
+    sign = {c["n"]: ("enum", c["n"], c["v"]) for e in prog.enums.values() if e["q"] == "signedness" for c in e["consts"]}
+    if set(brev) < {"full", "brief"} or set(sign) < {"sign", "unsign"}:
+        raise Broken("enums brevity / signedness vanished")
+    n_show = 0
+    for dname, w in sorted(W.items()):
+        try:
+            dom = ev.construct(ctor[0], Obj(ctor[0]["cls"]), [ev.eval(a, {}, None) for a in w["init"]["a"]])
+        except (OutOfBounds, Thrown) as x:
+            raise Broken("cannot construct the domain object of %s: %s" % (dname, x))
+        bad = None
+        for v, (name, plen) in sorted(w["table"].items()):
+            if name is None:
+                continue
+            for sg in ("unsign", "sign"):
+                for b, want in (("full", name), ("brief", name[plen + 1:])):
+                    m = Obj("mpz_class")
+                    m.m_u, m.m_i, m.m_sign = v, v, sign[sg]
+                    o = OStream()
+                    try:
+                        ev.call(sh[0], dom, [m, o, brev[b]])
+                        got = o.text()
+                    except OutOfBounds as x:
+                        got = "<memory error: %s>" % x
+                    except Thrown as x:
+                        got = "<exception: %s>" % x
+                    n_show += 1
+                    if got != want and bad is None:
+                        bad = "%s (value %d) renders in %s form as `%s`" % (name, v, b, got)
+        key = "Z1:show:" + dname
+        inst.append((key, {"names": len(w["table"])}))
+        if bad:
+            findings.append({"key": key, "where": "libzwerg/" + sh[0]["l"],
+                             "msg": "dw_simple_dom::show does not print the table entry: %s; the text does not read back as the constant" % bad, "detail": None})
+    inst.append(("Z1:show", {"renderings_interpreted": n_show}))
     if total < 500:
         raise Broken("only %d named constants in writer tables (floor 500)" % total)
     return inst, findings, total
